@@ -92,6 +92,8 @@ def run_property(prop, tier, seed):
         ex = special.RUNNERS[prop](prop, tier, seed, count, profiles)
     else:
         ex = explore(prop, tier, seed, count, profiles, "main")
+        if prop in special.CROSS_ENTRY:
+            special.cross_entry(prop, tier, seed, count, profiles, ex)
     D.log(f"[{prop}] explored {ex['evaluations']} cases in {time.time() - t0:.0f}s: corr_fail={len(ex['corr_fail'])} "
           f"spec_fail={len(ex['spec_fail'])} errors={len(ex['errors'])}")
     if ex["errors"]:
